@@ -303,7 +303,8 @@ InitD3 == \/ e \in I2R \cup B2R
           \/ \E x \in B2R : e = Un("not", x)
 Init == /\ ok = "todo"
         /\ IF Family = "comb" THEN e = Atom("a") /\ n \in CombSizes \X {"L", "R"}
-           ELSE IF Family \in {"d3", "naive"} THEN InitD3 /\ n = <<0, "-">>
+           ELSE IF Family = "d3" THEN InitD3 /\ n = <<0, "-">>
+           ELSE IF Family = "naive" THEN (\E l \in I1R, r \in I2R : e = Bin("+", l, r)) /\ n = <<0, "-">>
            ELSE e \in Universe /\ n = <<0, "-">>
 Tree == IF Family # "comb" THEN e ELSE IF n[2] = "L" THEN LeftComb(n[1]) ELSE RightComb(n[1])
 Verdict(t) ==
